@@ -12,6 +12,15 @@ const VERB: usize = 1024;
 pub fn img_of(bytes: &[u8]) -> Value {
     json!({"start": [], "len": big(bytes.len() as u64), "segs": [{"off": [], "bytes": bytes_val(bytes)}]})
 }
+/// a file of `total` bytes of which only the first `bytes` are given (the rest reads as zero)
+pub fn img_sparse(bytes: &[u8], total: u64) -> Value {
+    json!({"start": [], "len": big(total.max(bytes.len() as u64)), "segs": [{"off": [], "bytes": bytes_val(bytes)}]})
+}
+fn sparse_of(bytes: &[u8], total: u64) -> Sparse {
+    let mut s = Sparse::from_vec(bytes.to_vec());
+    s.len = s.len.max(total);
+    s
+}
 
 fn sample_json(s: &Mp4Sample) -> Value {
     let b = &s.bytes;
@@ -71,16 +80,20 @@ pub fn meta_event<R: Read + Seek>(r: &Mp4Reader<R>) -> Value {
 }
 
 /// open `bytes` (against `init` when given); Err carries the event describing the failure
-pub fn open_reader(
+pub fn open_reader(bytes: &[u8], init: Option<&[u8]>) -> std::result::Result<Mp4Reader<Sparse>, Value> {
+    open_reader_total(bytes, init, bytes.len() as u64)
+}
+pub fn open_reader_total(
     bytes: &[u8],
     init: Option<&[u8]>,
+    total: u64,
 ) -> std::result::Result<Mp4Reader<Sparse>, Value> {
     let fail = |r: std::result::Result<Error, String>| match r {
         Ok(e) => json!({"e":"open","res":err_class(&e),"msg":e.to_string(),"tracks":[]}),
         Err(p) => json!({"e":"open","res":"panic","msg":p,"tracks":[]}),
     };
     match init {
-        None => match guarded(|| Mp4Reader::read_header(Sparse::from_vec(bytes.to_vec()), bytes.len() as u64)) {
+        None => match guarded(|| Mp4Reader::read_header(sparse_of(bytes, total), total.max(bytes.len() as u64))) {
             Ok(Ok(r)) => Ok(r),
             Ok(Err(e)) => Err(fail(Ok(e))),
             Err(p) => Err(fail(Err(p))),
@@ -106,10 +119,12 @@ pub fn run_case(case: &Value, out: &mut Out) {
     out.ev(json!({"e":"reset","id":id,"prop":prop}));
     let bytes = from_bytes(&case["file"]);
     let init: Option<Vec<u8>> = if case["init"].is_array() { Some(from_bytes(&case["init"])) } else { None };
-    out.ev(json!({"e":"file","img":img_of(&bytes),"has_init":init.is_some(),
+    // "total": the file is longer than the bytes given (header-only rendering of a huge movie)
+    let total = if case["total"].is_array() { from_big(&case["total"]) } else { bytes.len() as u64 };
+    out.ev(json!({"e":"file","img":img_sparse(&bytes, total),"has_init":init.is_some(),
         "init": init.as_ref().map(|b| img_of(b)).unwrap_or(json!({})),
         "expect_ok": case["expect_ok"].as_bool().unwrap_or(false)}));
-    let mut reader = match open_reader(&bytes, init.as_deref()) {
+    let mut reader = match open_reader_total(&bytes, init.as_deref(), total) {
         Ok(r) => r,
         Err(ev) => {
             out.ev(ev);
